@@ -863,9 +863,14 @@ impl<'a, const D: usize, const F: usize, const V: usize> Ctx<'a, D, F, V> {
                     }
                     "eio" => {
                         let mut ff = f.to_file(vm);
-                        let r = EioWrite::write(&mut ff, &bytes).map(|k| assert!(k == bytes.len()));
+                        let r = EioWrite::write(&mut ff, &bytes);
                         ff.to_raw_file();
-                        r
+                        match r {
+                            // a short count is a success as far as the caller can tell (what was stored shows in the observers)
+                            Ok(k) if k != bytes.len() => return (args, res_ok(json!({"short": k}))),
+                            Ok(_) => Ok(()),
+                            Err(e) => Err(e),
+                        }
                     }
                     _ => vm.write(f, &bytes),
                 };
